@@ -28,6 +28,12 @@ CLAIMS = {
             "Every history up to depth 4/5 on a real on-disk leveldb store with trace-level logging; after every operation the raw store files, every key/value pair (raw iterator, so compressed tables are covered), every export and all new log bytes are searched for the seed, every extended/child private key on the used paths, the four key-encryption keys of each keystore and all passphrases in 5-6 encodings; every stored/exported blob is trial-decrypted with the keys derivable from the public passphrase alone and its plaintext searched.",
             "crypto treated as opaque (secretbox/scrypt); OS swap/core dumps and gRPC request logging outside the wallet code are not covered; api.Server.ExportKeystore writes exactly the bytes ExportKeystore returns (by reading)",
             "DESIGN.md §C04"),
+    "C12": ("fault_enumeration",
+            "exhaustive fault injection: every storage event of every (reached state, mutating operation) pair x {failed write/commit, crash before, crash after} on the real wallet over a fault-injecting db.DB wrapper",
+            "seqx",
+            "BFS over wallet histories to depth 4 (quick) / 5 (thorough); for every reached (state, mutating operation) a dry run through the faultdb wrapper counts the operation's storage events (bucket writes and commits) and the operation is re-executed from a fresh replay once per event and fault kind. Crash: open transaction abandoned, store reopened, wallet must open and equal the reference before the operation (after it only for a crash after the commit). Reported error: running instance and reopened wallet equal the prior state and remain usable. Swallowed fault + success reported: complete effect now and after restart. Covers create, address generation, plot-key issuance, remark, private/public passphrase change, delete, import and the open path.",
+            "goleveldb's transaction commit is taken as atomic and durable (its file-level crash safety is not re-verified); a crash at a write inside an uncommitted transaction is modelled by discarding the transaction",
+            "DESIGN.md §C12"),
     "C02": ("exploration",
             "explicit-state BFS over wallet operation histories on the real manager+store against a reference model, restart check in every state",
             "seqx",
